@@ -194,6 +194,9 @@ def handle (j : Json) : Json :=
         | .op o =>
           let (s', out) := modelStep fixed ntasks npaths acc.1 o
           (s', out :: acc.2)
+        | .ignskip _ =>
+          let (s', out) := modelStep fixed ntasks npaths acc.1 (.switchChecker acc.1.checker)
+          (s', out :: acc.2)
         | _ => (acc.1, Driver.err "monitor event in model mode" :: acc.2)) (St.init, [])
       Json.mkObj [("steps", mkArr outs.reverse)]
 
